@@ -47,13 +47,15 @@ def cases(tier, seed):
                             continue
                         nb = len(blocks)
                         fds = [()] + [(b,) for b in range(nb)] + ([tuple(range(nb))] if nb > 1 else [])
+                        if blocks[0] == 3 and deg == "none":
+                            fds += ["mask01", "mask02"]
                         for fd in fds:
                             if qk and fd and deg == "pair" and dt != "rc":
                                 continue
                             for solver in ("direct", "direct-opts"):
                                 if solver == "direct-opts" and (fd or dt != "rc"):
                                     continue
-                                out.append(dict(n=n, blocks=list(blocks), deg=deg, dtypes=dt, mode=mode, fd=list(fd),
+                                out.append(dict(n=n, blocks=list(blocks), deg=deg, dtypes=dt, mode=mode, fd=fd if isinstance(fd, str) else list(fd),
                                                 solver=solver, total=3 if qk else 4, seed=seed))
     kpm = [dict(n=5, blocks=[1], deg="none", dtypes="rr", mode="herm", fd=[], solver="kpm", total=2, seed=seed),
            dict(n=5, blocks=[1, 1], deg="none", dtypes="rr", mode="herm", fd=[], solver="kpm", total=2, seed=seed),
@@ -150,7 +152,13 @@ def run_case(case):
     complete = explicit + [vecs(nexp, n)]
     H = {(0,): sparse.csr_array(h0), (1,): terms[0], (2,): terms[1]}
     kwargs = dict(hermitian=herm)
-    if case["fd"]:
+    if isinstance(case["fd"], str):
+        # element mask on the first explicit block: eliminate a single pair, keep the rest (a non-transitive kept set)
+        m = np.zeros((blocks[0], blocks[0]), dtype=bool)
+        i_, j_ = (0, 1) if case["fd"] == "mask01" else (0, 2)
+        m[i_, j_] = m[j_, i_] = True
+        kwargs["fully_diagonalize"] = {0: m}
+    elif case["fd"]:
         kwargs["fully_diagonalize"] = tuple(case["fd"])
     ikw = dict(kwargs)
     tol = 1e-8
